@@ -347,6 +347,54 @@ def strip(t, depth=0):
     return t
 
 
+_norm_memo = {}
+
+
+def norm(t, depth=0):
+    """strip() applied recursively to every sub-term"""
+    if depth > 80:
+        return t
+    r = _norm_memo.get(t)
+    if r is not None:
+        return r
+    s = strip(t)
+    k = s[0]
+    if k == "call":
+        fn = s[1]
+        if isinstance(fn, tuple) and fn[0] == "ptr":
+            fn = ("ptr", norm(fn[1], depth + 1))
+        r = ("call", fn, tuple(norm(a, depth + 1) for a in s[2]), s[3])
+    elif k == "agg":
+        r = ("agg", s[1], s[2], tuple((f, norm(v, depth + 1)) for f, v in s[3]))
+    elif k == "bin":
+        r = ("bin", s[1], norm(s[2], depth + 1), norm(s[3], depth + 1))
+    elif k == "un":
+        r = ("un", s[1], norm(s[2], depth + 1))
+    elif k == "cast":
+        r = ("cast", s[1], s[2], norm(s[3], depth + 1))
+    elif k in ("field", "downcast", "index", "repeat"):
+        r = (k, norm(s[1], depth + 1)) + tuple(s[2:])
+    elif k == "payload":
+        r = ("payload", s[1], norm(s[2], depth + 1))
+    elif k == "await":
+        r = ("await", norm(s[1], depth + 1))
+    elif k == "discr":
+        r = ("discr", norm(s[1], depth + 1))
+    elif k == "phi":
+        xs = []
+        for x in s[1]:
+            y = norm(x, depth + 1)
+            if y not in xs:
+                xs.append(y)
+        r = xs[0] if len(xs) == 1 else ("phi", tuple(xs))
+    else:
+        r = s
+    if len(_norm_memo) > 200000:
+        _norm_memo.clear()
+    _norm_memo[t] = r
+    return r
+
+
 def subterms(t, depth=0):
     """all sub-terms (pre-order)"""
     yield t
